@@ -178,9 +178,9 @@ fn load(b: &[u8]) -> Load {
 }
 
 /// "allocates without bound": the largest single allocation request made while loading / decoding a file must stay within a bound that
-/// is linear in the file size (64 bytes requested per file byte, at least 1 MiB — emitted files need a few kB). A request above it is
+/// is linear in the file size (64 bytes requested per file byte, at least 16 MiB — emitted files need a few kB). A request above it is
 /// driven by a length field, not by the data present.
-fn alloc_bound(file_len: usize) -> usize { (file_len * 64).max(1 << 20) }
+fn alloc_bound(file_len: usize) -> usize { (file_len * 64).max(16 << 20) }
 fn load_probed(b: &[u8]) -> (Load, usize) { reset_alloc_probe(); let l = load(b); (l, largest_request()) }
 fn hostile(v: &mut Verdict, b: &[u8], place: &str, what: &str) {
   v.evals += 1;
